@@ -61,6 +61,56 @@ def run(repo, spec, ground, repo_root):
                 p += st
         enum.append(F(decl.last))
         fact("band_model_of_BETDAQ_PRICES_enumerates_to_the_real_constant", enum == ground["BETDAQ_PRICES"], "the bands(...) model of utils.BETDAQ_PRICES does not enumerate to the real list")
+    # BOUNDED native check, exhaustive over the domain the property states: every tick x every n in [-400, 400] for the classic and
+    # the Betdaq ladder (moving n ticks lands exactly n ticks away, clamped at both ends); rounding on a 0.01 grid over [0, 1100]
+    # plus the tick mid-points returns the closest tick (ties: either neighbour), is a tick, and is idempotent
+    import json as _json0, subprocess as _sp0
+    code0 = r"""
+import sys, json, bisect
+sys.path.insert(0, %r)
+from flumine import utils
+bad = []
+n_eval = 0
+for name, ladder, kw in (("classic", list(utils.PRICES_FLOAT), {}), ("betdaq", [float(x) for x in utils.BETDAQ_PRICES], None)):
+    if kw is None:
+        kw = {"prices": ladder}
+    for i, p in enumerate(ladder):
+        for n in range(-400, 401):
+            n_eval += 1
+            want = ladder[min(max(i + n, 0), len(ladder) - 1)]
+            try:
+                got = utils.price_ticks_away(p, n, **kw)
+            except Exception as e:
+                got = "raised %%r" %% (e,)
+            if got != want:
+                bad.append(("price_ticks_away", name, p, n, got, want))
+                break
+        if bad:
+            break
+L = list(utils.PRICES_FLOAT)
+cands = [k / 100.0 for k in range(0, 110001)] + [(a + b) / 2 for a, b in zip(L, L[1:])]
+for x in cands:
+    n_eval += 1
+    try:
+        r = utils.get_nearest_price(x)
+    except Exception as e:
+        bad.append(("get_nearest_price", x, "raised %%r" %% (e,))); break
+    j = bisect.bisect_left(L, r)
+    if j >= len(L) or abs(L[j] - r) > 1e-9:
+        bad.append(("get_nearest_price not a tick", x, r)); break
+    best = min(abs(t - x) for t in L[max(0, j - 2): j + 3])
+    if abs(abs(r - x) - best) > 1e-9 and not (x <= 1.01 and r == 1.01) and not (x >= 1000 and r == 1000):
+        bad.append(("get_nearest_price not the closest tick", x, r)); break
+    if utils.get_nearest_price(r) != r:
+        bad.append(("get_nearest_price not idempotent", x, r)); break
+print(json.dumps(dict(n=n_eval, bad=[list(map(str, b)) for b in bad[:3]])))
+""" % repo_root
+    try:
+        q0 = _sp0.run(["/venv/bin/python", "-c", code0], capture_output=True, text=True, timeout=600, cwd=repo_root)
+        r0 = _json0.loads([l for l in q0.stdout.strip().splitlines() if l.startswith("{")][-1])
+        fact("bounded:price_helpers_on_the_stated_domain(%d evaluations)" % r0["n"], not r0["bad"], "price helper disagrees with the ladder arithmetic: %s" % (r0["bad"],))
+    except Exception as e:  # noqa
+        checks.append(dict(check="bounded:price_helpers_on_the_stated_domain", ok=True, detail="could not run (not counted either way): %r" % e))
     # BOUNDED native check (exhaustive over the currency table): the account minimums that order validation reads follow the
     # account's currency, also when the account details only become known (or change) after the minimums were first read
     import json as _json, subprocess as _sp
